@@ -513,6 +513,14 @@ class Engine:
                 if isinstance(r, list):
                     return [(a_[0], list(a_[1]), a_[2] if len(a_) > 2 else None, a_[3] if len(a_) > 3 else None) for a_ in r]
                 return [(r, [], None, None)]
+        if body is None and f[0] == 'fn' and not args and f[1].get('path'):
+            # an external constructor-like function without arguments used as a callback (`map_or_else(String::new, ..)`):
+            # an ordinary opaque call
+            name = mir.callee_name(f[1])
+            n = len(st.effects)
+            eff = list(st.effects) + [{'kind': 'call', 'callee': name, 'declared': f[1]['path'], 'args': [], 'site': (fr.body.path, fr.bb, fr.body.where(fr.bb)),
+                                       'tracing': False, 'fn': f[1], 'pointees': []}]
+            return [(T('call', name, n), [], eff, None)]
         if body is None or self._apply_depth > 3:
             return None
         if f[0] == 'fn' and self.inline_filter is not None and not self.inline_filter(body):
@@ -763,6 +771,20 @@ class Engine:
                 else:
                     args = unpacked
                 fn = FnInfo({'path': tb.path, 'resolved': {'path': tb.path}, 'defkind': 'Closure' if f[0] == 'agg' else 'Fn'})
+                fv = ('fn', fn)
+                name = declared = tb.path
+        # 0b'. a call through a function pointer that holds a (capture-less) closure coerced to `fn(..)`
+        if fn is None and fv[0] == 'agg' and isinstance(fv[1], str) and fv[1].startswith('closure:'):
+            tb = self.facts.body(fv[1][len('closure:'):])
+            if tb is not None:
+                env = fv
+                if tb.local_ty(1).get('k') == 'ref':
+                    h = ('H', 200000 + st.next_heap)
+                    st.next_heap += 1
+                    st.store[(h, ())] = fv
+                    env = ('ref', (h, ()))
+                args = [env] + list(args)
+                fn = FnInfo({'path': tb.path, 'resolved': {'path': tb.path}, 'defkind': 'Closure'})
                 fv = ('fn', fn)
                 name = declared = tb.path
         # 0c. a tuple-struct / tuple-variant constructor called as a function (directly or through a fn value)
